@@ -4,7 +4,7 @@ import re
 from fractions import Fraction
 
 from ..tyob import *  # noqa
-from ..tyob import analyse, expect, item, unmodelled_in, no_truncation
+from ..tyob import analyse, expect, item, unmodelled_in, no_truncation, no_int_arith
 from ..poly import Normaliser, Poly, straightline_env
 from ..program import norm_stmt
 
@@ -32,12 +32,19 @@ def run(chk):
     roll_rules(chk)
     left_rules(chk)
     interp2d_rules(chk)
+    # an integer-typed table: rows are blended with real weights; no row difference is formed in the table's own dtype (unsigned
+    # tables wrap around on every decreasing column)
+    no_int_arith(chk, "R-I2D", GEN + "interp2d", lambda I, st, fi: dict(
+        x=AV(kind=K_ARRAY, dtype="real", shape=(LinExpr("X"),), origin=frozenset(["p:x"]), tags=frozenset(["p:x"])),
+        xf=AV(kind=K_ARRAY, dtype="real", shape=(LinExpr("XF"),), origin=frozenset(["p:xf"]), tags=frozenset(["p:xf"]), mono=frozenset([0])),
+        f=AV(kind=K_ARRAY, dtype="int", shape=(LinExpr("XF"), LinExpr("M")), origin=frozenset(["p:f"]), tags=frozenset(["p:f"]), alg={R: LIN})),
+        "eqsig/fns/generic.py:interp2d(integer table)", what="an integer-typed table")
     nzs_rules(chk)
     chk.floor("R-STEP-PARITY", 6)
     chk.floor("R-STEP-LEVELS", 4)
     chk.floor("R-ROLL", 14)
     chk.floor("R-LEFT", 4)
-    chk.floor("R-I2D", 6)
+    chk.floor("R-I2D", 7)
     chk.floor("R-NZS-SIB", 24)
     chk.floor("R-NZS-CONT", 12)
 
